@@ -4,9 +4,17 @@ from .common import COMMON_REAL, COMMON_STUB
 
 
 def profile(st):
-    return {'minutes': (20, 500), 'p_data_route': 0.5, 'trading_tfs': ['1m', '1m', '3m', '5m', '15m'],
-            'data_tfs': ['3m', '5m', '15m', '30m', '1h'], 'p_warmup': 0.4,
-            'program': {'p_enter': st.choice([0.1, 0.3, 0.8], 'pe'), 'p_keep_entry': st.choice([0.0, 0.5, 0.9], 'pk')}}
+    pf = {'minutes': (20, 500), 'p_data_route': 0.5, 'trading_tfs': ['1m', '1m', '3m', '5m', '15m'],
+          'data_tfs': ['3m', '5m', '15m', '30m', '1h'], 'p_warmup': 0.4,
+          'program': {'p_enter': st.choice([0.1, 0.3, 0.8], 'pe'), 'p_keep_entry': st.choice([0.0, 0.5, 0.9], 'pk')}}
+    if st.chance(0.3, 'liq'):
+        # isolated margin with a liquidation price close to the market and a big gap at the cut: the
+        # liquidation decision of the last minute before the cut must not depend on the gap
+        pf.update({'type': 'futures', 'mode': 'isolated', 'leverage': st.choice([20, 50, 100, 125], 'lev'), 'big_gap': True,
+                   'p_small_lattice': 0.0})
+        pf['program'].update({'p_enter': 0.8, 'sl_rows': 0, 'tp_rows': st.choice([0, 1], 'tp'), 'exit_dist': (200, 600),
+                              'entry_styles': ['market'], 'size_frac': 0.45, 'p_liquidate': 0.0})
+    return pf
 
 
 CHECK = FutureReplacementCheck(
